@@ -24,6 +24,7 @@ import re
 import threading
 
 from harness import lcd_anim as L
+from harness import fw as fwmod
 from harness import tlc as _tlc
 from harness.common import MachineryError, scratch
 from harness.tlc import run_tlc
@@ -194,6 +195,40 @@ def fw_leg(run, hs: list, label: str, probes: bool = False) -> None:
                           {"leg": "fw", "h": h, "verdict": v, "script": x["script"], "trace": x["ev"]})
 
 
+TICK_PLACEMENTS = {
+    "in-try-body": ["try:", '    lcd1.animate("scroll", 0, "hello world", speed_ms=100, loop=True)', "except Exception as e:", "    pass"],
+    "in-except-handler": ["try:", "    sleep(1)", "except Exception as e:", '    lcd1.animate("blink", 1, "err", speed_ms=100, loop=True)'],
+    "in-both-clauses": ["try:", '    lcd1.animate("typewriter", 0, "abc", speed_ms=50, loop=False)', "except Exception as e:",
+                        '    lcd1.animate("bounce", 1, "zz", speed_ms=70, loop=True)'],
+    "in-branch-in-for": ["for q in range(1):", "    if q == 0:", '        lcd1.animate("scroll", 1, "hello", speed_ms=100, loop=True)'],
+    "in-while": ["w = 0", "while w < 1:", "    w += 1", '    lcd1.animate("blink", 0, "hi", speed_ms=100, loop=True)'],
+}
+
+
+def tick_text_probe(run) -> None:
+    """Animations started inside compound statements of the set-up code (try / except clauses do not compile on the mock core - the
+    known C06 finding try-except - so these are judged on the emitted text): every `__redu_lcd_start_<style>(<state>, ...)` has its
+    `__redu_lcd_tick_<style>(<state>, ...)` in loop(), once.  An animation that is started but never ticked never advances."""
+    hdr = ["from Reduino import target", "from Reduino.Displays import LCD", "from Reduino.Utils import sleep", 'target("COM3", upload=False)',
+           "lcd1 = LCD(i2c_addr=0x27, cols=16, rows=2)"]
+    for name, body in TICK_PLACEMENTS.items():
+        src = "\n".join(hdr + body + ["while True:", "    sleep(10)"]) + "\n"
+        t = fwmod.transpile(src)
+        run.count(("tick-text", name))
+        if t["status"] != "accept":
+            continue                                  # refusing the placement is allowed
+        cpp = t["cpp"]
+        loop = cpp[cpp.find("void loop()"):]
+        starts = re.findall(r"__redu_lcd_start_(\w+)\((\w+)", cpp[:cpp.find("void loop()")])
+        for style, state in starts:
+            n = len(re.findall(rf"__redu_lcd_tick_{style}\({state}\b", loop))
+            if n != 1:
+                run.violation(f"animation started {name} is ticked {n} times per loop() pass (style {style}, state {state}): it is started but "
+                              f"{'never advanced' if n == 0 else 'advanced more than once'}", {"leg": "fw-text", "placement": name, "script": src, "loop": loop[:1200]})
+        if not starts:
+            run.violation(f"animate() {name} is accepted but no animation is started in setup()", {"leg": "fw-text", "placement": name, "script": src})
+
+
 def _stratified(hs: list, per_group: int, seed: int) -> list:
     """A sample of the grid behaviours in which every (style, loop, speed) occurs, with varying width and pattern."""
     groups: dict = {}
@@ -273,6 +308,7 @@ def check(run) -> None:
                     keep.append(h)
             probes = keep
         fw_leg(run, probes, "probes", probes=True)
+        tick_text_probe(run)
         host_verdicts(run, tg, mg, *vg.result())
         host_verdicts(run, tw, mw, *vw.result())
         for res, label, need_cov in mc.result():
@@ -287,6 +323,22 @@ def check(run) -> None:
 # ---------------------------------------------------------------------------------------------------------
 def replay(path: str) -> int:
     r = json.load(open(path))
+    if r.get("leg") == "fw-text":
+        class _R:
+            def __init__(self):
+                self.v = []
+            def count(self, *_a, **_k):
+                pass
+            def violation(self, what, rep=None, **_k):
+                if (rep or {}).get("placement") == r["placement"]:
+                    self.v.append(what)
+        rr = _R()
+        tick_text_probe(rr)
+        print(json.dumps(rr.v))
+        if rr.v:
+            print(f"VIOLATION property=C18 replay={path}")
+            return 1
+        return 0
     h, leg = r["h"], r["leg"]
     if leg == "host":
         ev = L.host_trace(h)
